@@ -116,6 +116,17 @@ impl InFlightRequests {
     }
 }
 
+#[cfg(feature = "verif")]
+impl InFlightRequests {
+    /// Verification hook: lengths of the request table and of the timer queue.
+    pub fn verif_lens(&self) -> crate::verif::Lens {
+        crate::verif::Lens {
+            entries: self.request_data.len(),
+            timers: self.deadlines.len(),
+        }
+    }
+}
+
 /// When InFlightRequests is dropped, any outstanding requests are aborted.
 impl Drop for InFlightRequests {
     fn drop(&mut self) {
